@@ -546,8 +546,6 @@ func checkC04() int {
 	c.Assumptions = []string{"stdout order is the order of write(2) calls on one pipe, which respects happens-before", "R2 and the generator are the trusted base; R2's lazy run reproduces Grits on contraction-free programs"}
 	outs := runMatrix(c, pool, cases, nCfg, modesAll)
 	exact, interval, seqDecided, seqBounded := 0, 0, 0, 0
-	msCache := map[string]map[string]bool{}
-	msBounded := map[string]bool{}
 	for _, r := range outs {
 		c.Evaluations++
 		o := r.o
@@ -564,49 +562,36 @@ func checkC04() int {
 		}
 		pc := r.pc
 		got := sem.MS(run.Stdout)
-		okMS := got == pc.LazyMS
-		if !okMS && pc.Contr {
-			set, ok := msCache[pc.ID]
-			if !ok {
-				s := &sem.Search{MaxState: c.pick(20000, 60000), MaxSteps: 400000}
-				set = sem.New(pc.P).Multisets(s)
-				msCache[pc.ID] = set
-				msBounded[pc.ID] = s.Bounded
-			}
-			if set[got] {
-				okMS = true
-				exact++
-			} else if msBounded[pc.ID] {
-				// interval oracle: same support, counts not below the lazy counts
-				if intervalOK(pc.LazyMS, got) {
-					okMS = true
-					interval++
-				}
-			}
-		} else if okMS {
-			exact++
-		}
-		if !okMS {
-			w := witnessOf(r)
-			w["reference_multiset"] = pc.LazyMS
-			w["observed_multiset"] = got
-			c.Violation(fmt.Sprintf("mode=%s contraction=%v printed multiset is not one the SAX semantics produces", r.cfg.Mode, pc.Contr), w)
-			continue
-		}
-		// order
-		s := &sem.Search{MaxState: c.pick(4000, 20000), MaxSteps: 400000}
+		// The guided replay decides multiset and order at once: if the observed sequence can be
+		// produced, its multiset is an admitted one.
+		s := &sem.Search{MaxState: c.pick(6000, 30000), MaxSteps: 400000}
 		adm, decided := sem.New(pc.P).Admits(run.Stdout, s)
-		if !decided {
-			seqBounded++
-			c.Inconc("order-search-bound")
-		} else {
+		w := witnessOf(r)
+		w["reference_multiset_lazy"] = pc.LazyMS
+		w["observed_multiset"] = got
+		switch {
+		case !pc.Contr && got != pc.LazyMS:
+			c.Violation(fmt.Sprintf("mode=%s contraction=false printed multiset is not the one the SAX semantics produces", r.cfg.Mode), w)
+			continue
+		case decided && adm:
+			exact++
 			seqDecided++
-			if !adm {
-				w := witnessOf(r)
-				w["reference_multiset"] = pc.LazyMS
-				c.Violation(fmt.Sprintf("mode=%s contraction=%v printed order violates causality / program order of the SAX semantics", r.cfg.Mode, pc.Contr), w)
+		case decided && got != pc.LazyMS:
+			c.Violation(fmt.Sprintf("mode=%s contraction=%v printed multiset / sequence is not one the SAX semantics produces under any copy timing", r.cfg.Mode, pc.Contr), w)
+			continue
+		case decided:
+			c.Violation(fmt.Sprintf("mode=%s contraction=%v printed order violates causality / program order of the SAX semantics", r.cfg.Mode, pc.Contr), w)
+			continue
+		default:
+			// search bound: the multiset is judged by the interval oracle (lazy counts are minimal,
+			// label support is fixed), the order stays undecided
+			seqBounded++
+			if got != pc.LazyMS && !intervalOK(pc.LazyMS, got) {
+				c.Violation(fmt.Sprintf("mode=%s contraction=%v printed multiset is below the minimal counts or has a different label support", r.cfg.Mode, pc.Contr), w)
 				continue
 			}
+			interval++
+			c.Inconc("order-search-bound")
 		}
 		procs := map[int]bool{}
 		for _, p := range run.PrintBy {
@@ -620,8 +605,8 @@ func checkC04() int {
 		}
 	}
 	c.Extra["programs"] = len(cases)
-	c.Extra["multiset_decided_exactly"] = exact
-	c.Extra["multiset_decided_by_interval"] = interval
+	c.Extra["runs_decided_exactly_by_guided_replay"] = exact
+	c.Extra["runs_where_the_search_bound_was_hit(multiset_by_interval,order_undecided)"] = interval
 	c.Extra["order_decided"] = seqDecided
 	c.Extra["order_search_bound_hit"] = seqBounded
 	c.Extra["generator_features"] = featKeys(cases)
